@@ -226,9 +226,62 @@ func (g *G) serialise(gr Graph, compact, embed bool) C05Doc {
 	return C05Doc{Text: text, Form: form, Fragment: !compact}
 }
 
+// a chain n0 -> n1 -> ... written flat and fully embedded (each node inside its parent), with and without
+// one-element arrays: the nesting depth of the embedded form grows with the graph
+func deepChainCase(g *G, id, length int) C05Case {
+	var gr Graph
+	for k := 0; k < length; k++ {
+		n := Node{Id: nodeId(k), Types: []string{NS + "T"}, Props: []Prop{}}
+		if k+1 < length {
+			n.Props = append(n.Props, Prop{Iri: NS + "p0", Vals: []Val{VR(nodeId(k + 1))}})
+		}
+		if k%2 == 0 {
+			n.Props = append(n.Props, Prop{Iri: NS + "p1", Vals: []Val{VS("v")}})
+		}
+		gr = append(gr, n)
+	}
+	embedded := func(wrap bool) string {
+		text := ""
+		for k := length - 1; k >= 0; k-- {
+			var kvs []okv
+			idb, _ := json.Marshal(nodeId(k))
+			kvs = append(kvs, okv{"@id", string(idb)}, okv{"@type", `["` + NS + `T"]`})
+			if k%2 == 0 {
+				kvs = append(kvs, okv{NS + "p1", `"v"`})
+			}
+			if text != "" {
+				if wrap {
+					kvs = append(kvs, okv{NS + "p0", "[" + text + "]"})
+				} else {
+					kvs = append(kvs, okv{NS + "p0", text})
+				}
+			}
+			text = renderObj(kvs)
+		}
+		return text
+	}
+	c := C05Case{Op: "c05", Id: id, Graph: gr}
+	c.Docs = []C05Doc{
+		{Text: gr.RenderFlat(), Form: "flat-canonical", Fragment: true},
+		{Text: embedded(false), Form: fmt.Sprintf("single-object+embedded-chain-%d", length), Fragment: true},
+		{Text: "[" + embedded(true) + "]", Form: fmt.Sprintf("array+embedded-chain-arrays-%d", length), Fragment: true},
+	}
+	prof := ProfileSpec{Name: "c05_chain", Atoms: []Atom{{Kind: "minCount", Path: PP("p1", false), Arg: i64p(1)}},
+		Validations: []Validation{{Name: "v", Class: NS + "T", Rule: Rule{Atom: ip(0)}}}}
+	c.Profiles = []string{prof.Render()}
+	return c
+}
+
 func genC05(g *G, n int, out io.Writer) {
 	enc := json.NewEncoder(out)
 	maxBranches = 10
+	lengths := []int{20, 33, 70, 150}
+	if n > 500 {
+		lengths = append(lengths, 300, 600, 1100)
+	}
+	for k, l := range lengths {
+		enc.Encode(deepChainCase(g, 100000+k, l))
+	}
 	for i := 0; i < n; i++ {
 		gr := g.graph(2+g.n(6), 0.55)
 		c := C05Case{Op: "c05", Id: i, Graph: gr}
